@@ -78,6 +78,9 @@ func Unit(res *vc.UnitResult, opt Options) ([]Status, error) {
 	if len(res.Obligations) == 0 {
 		return out, nil
 	}
+	if len(res.Obligations) > 4000 {
+		return nil, fmt.Errorf("%s generates %d obligation instances (cap 4000): the function is outside the reach of path enumeration; restrict the unit (opt stopafter) or drop its contract", res.Unit, len(res.Obligations))
+	}
 	if len(res.Header) > 8<<20 {
 		return nil, fmt.Errorf("SMT header of %s exceeds the 8 MB cap (%d bytes)", res.Unit, len(res.Header))
 	}
@@ -227,6 +230,30 @@ func Unit(res *vc.UnitResult, opt Options) ([]Status, error) {
 		if len(pg.queries) > 0 {
 			proofGroups = append(proofGroups, pg)
 		}
+	}
+	// reachability only needs one witness per unit: the precondition check and a handful of return paths are asked
+	if len(coverGroups) > 8 {
+		var keep []*grp
+		for _, g := range coverGroups {
+			isVac := false
+			for _, q := range g.queries {
+				for _, i := range q.idxs {
+					if res.Obligations[i].Kind == "vacuity" {
+						isVac = true
+					}
+				}
+			}
+			if isVac || len(keep) < 8 {
+				keep = append(keep, g)
+			} else {
+				for _, q := range g.queries {
+					for _, i := range q.idxs {
+						out[i] = Status{Result: "unknown", Backend: "not asked (sampled)"}
+					}
+				}
+			}
+		}
+		coverGroups = keep
 	}
 	if len(coverGroups) > 0 {
 		saved := opt.BatchMs
